@@ -326,7 +326,7 @@ def lemma_root_min(heap, n, k):
   # (_OnOpenNodeComplete -> _OnNodeDown on failure) runs later as its own entry point
   'HeapBalancerSink._OpenNode': dict(
     cls='HeapBalancerSink', params={'n': 'Node'}, returns='AsyncResult',
-    requires=['allocated(n)', 'allocated(n.channel)'],
+    requires=['allocated(n)'],
     ensures=['result is not None', 'n.channel.g_opens == old(n.channel.g_opens) + 1',
              'forall_ref(c, Channel, implies(c != n.channel, c.g_opens == old(c.g_opens)), c.g_opens)'],
     modifies=['Channel.g_opens'], allocates=True,
